@@ -7,6 +7,7 @@ import (
 	"os"
 	"path/filepath"
 	"runtime"
+	"strings"
 	"sync"
 	"sync/atomic"
 	"time"
@@ -258,8 +259,11 @@ func c06Case(c *core.Ctx, rng *rand.Rand, dir string, idx int, a *apiTrack, st *
 			var e error
 			ok, dump := core.WithWatchdog(twin.WatchdogTimeout, func() { a.call(func() { e = w.Close() }) })
 			if !ok {
+				// classified here, while nobody receives yet: once every Close call is accounted for the
+				// consumer starts draining both channels, which dissolves a hang that depends on consumption
+				cls, d := persistentHangClass(dump)
 				atomic.AddInt32(&notRet, 1)
-				dumps.Store(k, dump)
+				dumps.Store(k, cls+"\x00"+d)
 			} else if e != nil {
 				cerrs.Store(k, e)
 			}
@@ -280,7 +284,8 @@ func c06Case(c *core.Ctx, rng *rand.Rand, dir string, idx int, a *apiTrack, st *
 	if notRet > 0 {
 		var dump string
 		dumps.Range(func(_, v interface{}) bool { dump = v.(string); return false })
-		cls, dump := persistentHangClass(dump)
+		cls := dump[:strings.Index(dump, "\x00")]
+		dump = dump[len(cls)+1:]
 		if cls == "deadlock:send-under-lock+api-blocked" || cls == "send-under-lock" || cls == "no-reader-goroutine" || cls == "lock-leaked" || cls == "api-waits-for-reader-parked-in-send" || cls == "lock-holder-busy" {
 			c.Violate("close-did-not-return", fmt.Sprintf("[%s] %d Close calls did not return (%s)", params, notRet, cls), dumpExcerpt(dump))
 		} else {
